@@ -6,6 +6,7 @@
 mod common;
 mod env;
 mod props;
+mod script;
 
 use common::Args;
 
